@@ -47,6 +47,13 @@ func TestVerif_C02_Sim(t *testing.T) {
 		// route it replaces out of every RIB
 		cfgs = append(cfgs, cfg{"cfg=ie;oracle=c02;nvar=5;npfx=1;src=0;flap=0;noapi;nopeers", 4})
 	}
+	// sharp driver: two parallel sessions to one router (same AS, same BGP identifier, different addresses) are two
+	// sources: what one withdraws or loses must not take the other's route out of the Loc-RIB
+	dd := 4
+	if vr.Thorough() {
+		dd = 6
+	}
+	cfgs = append(cfgs, cfg{"cfg=dde;oracle=c02;nvar=2;npfx=1;src=01;flap=01;noapi;nopeers", dd})
 	budget := 60 * time.Second
 	if vr.Thorough() {
 		budget = 3 * time.Minute
